@@ -867,59 +867,10 @@ func (c *Ctx) tokenTypeConst(name string) string {
 
 func ruleTokContent(c *Ctx) []Obligation {
 	o := c.newObs("T-TOKCONTENT")
-	// asserted types per token type, from the non-comma-ok assertions in token.render / token.isNull
-	want := map[string]map[string]token.Pos{}
-	for _, m := range []string{c.renderName(), c.nullName()} {
-		for _, f := range c.codeImpls(m) {
-			if f.Synthetic != "" || f.Signature.Recv() == nil || types.TypeString(f.Signature.Recv().Type(), shortQual) != "jen.token" {
-				continue
-			}
-			a := c.FA(f)
-			for _, b := range f.Blocks {
-				for _, in := range b.Instrs {
-					ta, ok := in.(*ssa.TypeAssert)
-					if !ok || ta.CommaOk || !strings.HasSuffix(a.Desc(ta.X), ".content") {
-						continue
-					}
-					// token types under which this assertion executes
-					var typs []string
-					facts := a.FactsAt(b)
-					// an assertion guarded by a successful type test of the same type cannot fail
-					guarded := false
-					for _, w := range a.WaysTo(b) {
-						_ = w
-					}
-					if ok, _ := allWays(a.WaysTo(b), func(w Facts) bool {
-						return w.Has("is<"+types.TypeString(ta.AssertedType, shortQual)+">("+a.Desc(ta.X)+")", true)
-					}); ok {
-						guarded = true
-					}
-					if guarded {
-						continue
-					}
-					for atom, pol := range facts {
-						if pol && strings.HasPrefix(atom, "eq(\"") && strings.HasSuffix(atom, ",recv.typ)") {
-							typs = append(typs, atom[4:strings.Index(atom, "\",recv.typ)")])
-						}
-					}
-					if len(typs) == 0 {
-						typs = c.edgeTypes(a, b)
-					}
-					tname := types.TypeString(ta.AssertedType, shortQual)
-					if len(typs) == 0 {
-						o.undecided(fname(f), "assertion content.("+tname+")", ta.Pos(), "cannot determine under which token types this assertion runs (facts %s)", facts)
-						continue
-					}
-					for _, t := range typs {
-						if want[t] == nil {
-							want[t] = map[string]token.Pos{}
-						}
-						want[t][tname] = ta.Pos()
-					}
-				}
-			}
-		}
-	}
+	// asserted types per token type: from the non-comma-ok assertions on a token's content, on the
+	// paths of every function through which one can run (helpers inlined), each under the token-type
+	// fact known at that point
+	want := c.assertionSafety(o)
 	for t, m := range want {
 		if len(m) > 1 {
 			o.add(Violated, "(jen.token).render", "conflicting assertions for token type "+t, token.NoPos, true, "%v", m)
